@@ -202,11 +202,20 @@ def gen_case(rng, *, n_ops, listeners=True, waits=True, attach=False, weird=Fals
     if attacher_first:
         ops.append(['att', 1])
         attacher = 1
+    registered = []            # local ports of via-circuit connections whose stream has not shown up
+    consumed = []              # local ports whose registration was used up by a stream (the port may be reused later)
     if via:
-        ops += [['att', 0], ['ack', True]]
+        ops.append(['att', 0])
         attacher = 0
         w.no_reextend = True
-    registered = []            # local ports of via-circuit connections whose stream has not shown up
+        if rng.random() < 0.5:
+            # connections started before Tor has acknowledged the SETCONF that installs the attacher
+            early = [live_c[i] for i, c in w.circs.items() if c['status'] == 'BUILT' and i in live_c]
+            for oid in rng.sample(early, min(len(early), rng.randint(1, 2))):
+                w.port += 1
+                registered.append(w.port)
+                ops.append(['via', oid, '127.0.0.1', w.port])
+        ops.append(['ack', True])
     for _ in range(n_ops):
         r = rng.random()
         quit = []
@@ -227,8 +236,11 @@ def gen_case(rng, *, n_ops, listeners=True, waits=True, attach=False, weird=Fals
                     sid = rng.choice(free)
                     addr = '127.0.0.1'
                     r2 = rng.random()
-                    if r2 < 0.65:
+                    if r2 < 0.55:
                         port = registered.pop(rng.randrange(len(registered)))
+                        consumed.append(port)
+                    elif r2 < 0.65 and consumed:
+                        port = rng.choice(consumed)                   # the local port of an earlier connection, used again: unrelated
                     elif r2 < 0.8:
                         port = rng.choice(registered) + 1000          # an unrelated stream on another port
                     else:
